@@ -499,7 +499,63 @@ func init() {
 		nreq := c.fs.Int("requests", 200, "requests (a seeded sample of the table; every invalid class is kept)")
 		big := c.fs.Int("big", 3200, "goroutines parked for the large-dump phase (0 = skip)")
 		liveOut := c.fs.String("live", "", "write the lexed live dumps (ndjson) here, for Trace_Live")
+		huge := c.fs.Int("hugeonly", 0, "only this: park goroutines 100 frames deep, that many at a time, until the dump is above half of the default maxmem, and ask for one page with the default maxmem")
 		_ = c.fs.Parse(args)
+		if *huge > 0 {
+			res := newResult("one case = one request with the default maxmem against a process whose dump is larger than half of it (the capture buffer has to double all the way); non-trivial = every case")
+			park := make(chan struct{})
+			var pw sync.WaitGroup
+			// in batches, until the dump is comfortably above half of the default maxmem (how many bytes a
+			// frame takes depends on where the harness was built)
+			size := 0
+			for b := 0; b < 60 && size < 38<<20; b++ {
+				for i := 0; i < *huge; i++ {
+					pw.Add(1)
+					go parkDeep(100, &pw, park)
+				}
+				pw.Wait()
+				time.Sleep(50 * time.Millisecond)
+				size = len(selfDump())
+			}
+			res.count("huge_dump_bytes", size)
+			if size <= 32<<20 || size >= 64<<20 {
+				res.infra("the dump of %d parked goroutines is %d bytes: not between half of the default maxmem and the default maxmem", *huge, size)
+				return res.write(*c.out)
+			}
+			r := webReq{Status: 200, Augments: false}
+			r.R.Method, r.R.Maxmem, r.R.Augment, r.R.Sim = "GET", "absent", "0", "absent"
+			lo := runtime.NumGoroutine()
+			var w *httptest.ResponseRecorder
+			var target string
+			pan := func() (p string) {
+				defer func() {
+					if x := recover(); x != nil {
+						p = fmt.Sprint(x)
+					}
+				}()
+				w, target = doRequest(&r)
+				return ""
+			}()
+			switch {
+			case pan != "":
+				res.violation(Finding{Property: "C20", Aspect: "maxmem", What: fmt.Sprintf("GET with the default maxmem and a dump of %d bytes: the handler panicked: %s", size, pan)})
+				res.violation(Finding{Property: "C03", Aspect: "panic", What: fmt.Sprintf("the web handler panicked on a dump of %d bytes: %s", size, pan)})
+			case w.Code != 200:
+				res.violation(Finding{Property: "C20", Aspect: "maxmem", What: fmt.Sprintf("GET %s with a dump of %d bytes: status %d although the default maxmem (64 MiB) is larger than the dump", target, size, w.Code)})
+			default:
+				total := 0
+				for _, m := range reSig.FindAllStringSubmatch(w.Body.String(), -1) {
+					n, _ := strconv.Atoi(m[1])
+					total += n
+				}
+				if total < lo-80 {
+					res.violation(Finding{Property: "C20", Aspect: "maxmem", What: fmt.Sprintf("GET %s with a dump of %d bytes: the page accounts for %d of about %d goroutines", target, size, total, lo)})
+				}
+			}
+			res.eval("huge", true, nil)
+			close(park)
+			return res.write(*c.out)
+		}
 		res := newResult("one case = one self snapshot of the harness process under a churn workload (13 long-lived goroutines in known states + goroutines created and exiting), or one HTTP request of Web.tla's table against webstack.SnapshotHandler with 8 concurrent clients, or one request against a dump larger than 1 MiB with a maxmem that is not a power of two; non-trivial = every case")
 		var univ struct {
 			Requests []webReq `json:"requests"`
